@@ -266,7 +266,7 @@ func runC15(c *Ctx) {
 			}
 			prints := len(callsIn(f, func(call ssa.CallInstruction) bool {
 				g := call.Common().StaticCallee()
-				return g != nil && g.Pkg != nil && g.Pkg.Pkg.Path() == "fmt" && strings.HasPrefix(g.Name(), "Print")
+				return g != nil && g.Pkg != nil && g.Pkg.Pkg.Path() == "fmt" && (strings.HasPrefix(g.Name(), "Print") || strings.HasPrefix(g.Name(), "Fprint"))
 			})) > 0
 			if !prints {
 				continue
